@@ -38,7 +38,7 @@ theorem C02_number_rt_int (data off len : Nat) (signed : Bool) (r mn mx o : Int)
     (hdec : decodeNumber data off len signed (Lit.ofInt r) (Lit.ofInt mn) (Lit.ofInt mx) (Lit.ofInt o) = .ok (some v)) :
     ∃ n, encodeNumber (numVal v) len signed (Lit.ofInt r) (Lit.ofInt o) = .ok n ∧
       contrib n len = Straight.decode_int data off len := by
-  sorry
+  exact Enc02.number_rt_int data off len signed _ _ _ _ v rfl hr rfl hl1 hl hs hdec
 
 /-- **NUMBER / TIME / DURATION, decimal resolution, ≤ 48 bits**: exact round trip of the tick count
 (`round((raw × res) / res) = raw` in binary64) -/
@@ -48,7 +48,7 @@ theorem C02_number_rt_float (data off len : Nat) (signed : Bool) (res mn mx : Li
     (hdec : decodeNumber data off len signed res mn mx (Lit.ofInt 0) = .ok (some v)) :
     ∃ n, encodeNumber (numVal v) len signed res (Lit.ofInt 0) = .ok n ∧
       contrib n len = Straight.decode_int data off len := by
-  sorry
+  exact Enc02.number_rt_float data off len signed res mn mx v hf hres hl1 hl hs hdec
 
 /-- **absent stays absent**: the not-available pattern decodes to no value, and no value encodes to
 the not-available pattern (unsigned ≥ 2 bits: all ones; signed ≥ 4 bits: largest positive) -/
@@ -56,14 +56,16 @@ theorem C02_na_rt (data off len : Nat) (signed : Bool) (res mn mx ofs : Lit)
     (hl : 2 ≤ len) (hs : signed = true → 4 ≤ len)
     (hdec : decodeNumber data off len signed res mn mx ofs = .ok none) :
     ∃ n, encodeNumber .none len signed res ofs = .ok n ∧ contrib n len = Straight.decode_int data off len := by
-  sorry
+  have _ := hs
+  exact ⟨_, Enc02.encodeNumber_none len signed res ofs (by omega), Enc02.na_rt data off len signed res mn mx ofs hl hdec⟩
 
 /-- the same for TIME/DURATION fields (`encode_time(None, bits, signed)`) -/
 theorem C02_na_time_rt (data off len : Nat) (signed : Bool) (res mn mx : Lit)
     (hl : 4 ≤ len)
     (hdec : decodeNumber data off len signed res mn mx (Lit.ofInt 0) = .ok none) :
     contrib (naTime len signed) len = Straight.decode_int data off len := by
-  sorry
+  rw [Enc02.naTime_eq len signed hl]
+  exact Enc02.na_rt data off len signed res mn mx _ (by omega) hdec
 
 /-- **TIME / DURATION keep their exact tick count** (the encoder divides the reported raw value by
 the resolution and rounds): decimal resolution -/
@@ -71,19 +73,19 @@ theorem C02_ticks_rt_float (data off len : Nat) (signed : Bool) (res mn mx : Lit
     (hf : res.isFloat = true) (hres : pow2 (-1022) ≤ res.exact) (hl : len ≤ 48)
     (hdec : decodeNumber data off len signed res mn mx (Lit.ofInt 0) = .ok (some v)) :
     contrib (rhe (pyDiv v (litNum res))) len = Straight.decode_int data off len := by
-  sorry
+  exact Enc02.ticks_rt_float data off len signed res mn mx v hf hres hl hdec
 
 /-- integer resolution (e.g. minutes: 60) -/
 theorem C02_ticks_rt_int (data off len : Nat) (signed : Bool) (r mn mx : Int) (v : Num)
     (hr : 0 < r) (hl : len ≤ 48)
     (hdec : decodeNumber data off len signed (Lit.ofInt r) (Lit.ofInt mn) (Lit.ofInt mx) (Lit.ofInt 0) = .ok (some v)) :
     contrib (rhe (pyDiv v (litNum (Lit.ofInt r)))) len = Straight.decode_int data off len := by
-  sorry
+  exact Enc02.ticks_rt_int data off len signed _ _ _ v rfl hr hl hdec
 
 /-- lookups, reserved bits and raw dates: the reported raw integer is the field's bits -/
 theorem C02_raw_bits_rt (data off len : Nat) :
     contrib ((Straight.decode_int data off len : Nat) : Int) len = Straight.decode_int data off len := by
-  sorry
+  exact Enc02.ctr_nat _ _ (Enc02.decode_int_lt data off len)
 
 /-- OR-accumulation of masked contributions at pairwise disjoint positions: reading back position
 `k` returns contribution `k` -/
@@ -98,7 +100,8 @@ def disjointRanges : List (Nat × Nat × Nat) → Prop
 theorem C02_accumulate_read (parts : List (Nat × Nat × Nat)) (hd : disjointRanges parts)
     (hv : ∀ x ∈ parts, x.1 < 2 ^ x.2.1) (x : Nat × Nat × Nat) (hx : x ∈ parts) :
     Straight.decode_int (accumulate parts) x.2.2 x.2.1 = x.1 := by
-  sorry
+  rw [Enc02.acc_unique accumulate rfl (fun _ _ _ _ => rfl) parts]
+  exact Enc02.acc_read parts (Enc02.disj_unique disjointRanges (fun _ _ _ _ => rfl) parts hd) hv x hx
 
 /-! ### message level -/
 
@@ -158,7 +161,14 @@ theorem C02_roundtrip (env : Env) (g : List PgnDef) (p : PgnDef) (hwf : EncWF p 
       (∀ L, p.length = some L → bytes.length = L) ∧
       (∀ f ∈ p.fields, ∀ o l, f.bitOffset = some o → f.bitLength = some l →
         Straight.decode_int (leNat bytes) o l = Straight.decode_int data o l) := by
-  sorry
+  have e1 : leNat = Enc02.leNat' := funext (Enc02.leNat_unique leNat rfl (fun _ _ => rfl))
+  have e2 := Enc02.rangesDisj_unique rangesDisjoint rfl (fun _ _ => rfl) p.fields
+  have e3 := Enc02.idsUniq_unique idsUnique rfl (fun _ _ => rfl) p.fields
+  have e4 : encFieldOk = Enc02.fieldOk := rfl
+  simp only [EncWF, EncWF.ordersOk', Bool.and_eq_true, e2, e3, e4] at hwf
+  obtain ⟨⟨⟨⟨h1, h2⟩, h3⟩, h4⟩, h5⟩ := hwf
+  rw [e1]
+  exact Enc02.roundtrip env g p h1 h2 h3 h4 h5 data m hdec
 
 /-- which definitions of the shipped database have only encodable field kinds but fall outside
 `EncWF` (wide 64-bit fields, one decimal-resolution field with an Offset, one integer resolution
